@@ -202,6 +202,16 @@ class LazyMixin:
     def e__Lit(self, n, st):
         return n.v
 
+    def contains(self, container, item, st, n):
+        if isinstance(container, _Map):
+            if isinstance(item, str):
+                return item in container.d
+            raise Unsupported("membership of a symbolic key in %s (line %d)" % (container.name, n.lineno))
+        if isinstance(container, SDs):
+            if isinstance(item, str):
+                return item in container.vars or item in container.coords
+        return super().contains(container, item, st, n)
+
     def fancy_index(self, arr, index, st, n):
         """a[idx_array] for a 1-D a: result has idx_array's shape"""
         if len(shape_of(arr)) != 1:
